@@ -12,6 +12,9 @@ A *region* is a `try:` statement whose body contains `with time_limit(...)` (dir
  E3  lists that are extended pairwise inside the body (several different lists `.append`ed in one straight-line block, i.e.
      records kept in parallel lists) are re-aligned by the handler (all of them appear in a `del x[n:]` truncation), so that a
      timeout between the appends cannot leave them with different lengths.
+ E4  (on the context manager `time_limit` itself) the alarm is armed only after the handler that raises TimeoutException is installed, the `yield` is
+     inside a `try:` whose `finally:` cancels the alarm (`signal.alarm(0)`), so that on EVERY way out of a region -- normal end, timeout, any other
+     exception -- no alarm is left pending that would fire outside the region, where nothing catches it.
 Each obligation is (description, ok, line)."""
 import ast
 
@@ -212,4 +215,56 @@ def obligations(fnode, module_names=()):
                 if set(g) <= truncated:
                     ok = True
             out.append(("region at line %d: the parallel lists %s extended inside the body are re-aligned by the timeout handler" % (t.lineno, ", ".join(g)), ok, t.lineno))
+    return out
+
+
+def time_limit_obligations(fnode):
+    """E4 on `time_limit` (a generator-based context manager)."""
+    if fnode.name != "time_limit":
+        return []
+    out = []
+    calls = [(n, _dotted(n.func) or "") for n in ast.walk(fnode) if isinstance(n, ast.Call)]
+    sets = [n for n, d in calls if d.endswith("signal.signal") or d == "signal"]
+    arms = [n for n, d in calls if d.endswith("signal.alarm") and not (len(n.args) == 1 and isinstance(n.args[0], ast.Constant) and n.args[0].value == 0)]
+    cancels = [n for n, d in calls if d.endswith("signal.alarm") and len(n.args) == 1 and isinstance(n.args[0], ast.Constant) and n.args[0].value == 0]
+    # the installed handler raises the timeout exception
+    handler_ok = False
+    for n in sets:
+        if len(n.args) == 2 and isinstance(n.args[1], ast.Name):
+            for f in ast.walk(fnode):
+                if isinstance(f, ast.FunctionDef) and f.name == n.args[1].id:
+                    handler_ok = any(isinstance(r, ast.Raise) and r.exc is not None and (_dotted(r.exc.func if isinstance(r.exc, ast.Call) else r.exc) or "") in TIMEOUT_NAMES
+                                     for r in ast.walk(f))
+    out.append(("time_limit installs a SIGALRM handler that raises TimeoutException", bool(sets) and handler_ok, fnode.lineno))
+    out.append(("time_limit arms the alarm once, after the handler is installed", len(arms) == 1 and bool(sets) and all(s_.lineno < arms[0].lineno for s_ in sets), arms[0].lineno if arms else fnode.lineno))
+    ok = False
+    line = fnode.lineno
+    for t in ast.walk(fnode):
+        if isinstance(t, ast.Try) and t.finalbody:
+            has_yield = any(isinstance(y, (ast.Yield, ast.YieldFrom)) for b in t.body for y in ast.walk(b))
+            fin = any(c in [m for b in t.finalbody for m in ast.walk(b)] for c in cancels)
+            # the cancellation must not be conditional inside the finally block
+            direct = any(isinstance(b, ast.Expr) and b.value in cancels for b in t.finalbody)
+            if has_yield and fin and direct:
+                ok, line = True, t.lineno
+    yields = [y for y in ast.walk(fnode) if isinstance(y, (ast.Yield, ast.YieldFrom))]
+    out.append(("the region runs (`yield`) inside a try whose finally cancels the alarm unconditionally: no alarm stays pending after any way out of a region", ok and len(yields) == 1, line))
+    # E5: the context manager itself adds no exception of its own: a region ends with TimeoutException only when the alarm fired INSIDE the body (the statements after
+    # the interruption point did not run); a raise on the way out would report a timeout for a body that ran to completion and already published its results
+    own = []
+    def _own_raises(node, top=True):
+        for ch in ast.iter_child_nodes(node):
+            if isinstance(ch, (ast.FunctionDef, ast.Lambda, ast.AsyncFunctionDef)):
+                continue
+            if isinstance(ch, ast.Raise):
+                own.append(ch.lineno)
+            _own_raises(ch, False)
+    _own_raises(fnode)
+    out.append(("time_limit raises nothing of its own (only the signal handler raises TimeoutException, while the body runs)", not own, own[0] if own else fnode.lineno))
+    if arms and ok:
+        # nothing between arming and the try can raise past the cancellation: the try statement directly follows the arming statement
+        body = fnode.body
+        idx = [k for k, s_ in enumerate(body) if any(a is c for a in arms for c in ast.walk(s_))]
+        nxt = body[idx[0] + 1] if idx and idx[0] + 1 < len(body) else None
+        out.append(("the protected try directly follows the statement that arms the alarm", isinstance(nxt, ast.Try) and bool(nxt.finalbody), arms[0].lineno))
     return out
